@@ -2,6 +2,7 @@ package main
 
 import (
 	"go/ast"
+	"go/token"
 	"strconv"
 	"strings"
 )
@@ -239,11 +240,13 @@ func c14Gateway(fs *Facts) {
 		fs.Err("%v", err)
 		fs.Raw("ttlThresh", "none", "unknown", c14GwPath)
 		fs.Raw("ttlFloor", "none", "unknown", c14GwPath)
+		fs.Raw("ttlCap", "none", "unknown", c14GwPath)
 		fs.Tri("gwWithoutCancel", Unknown, c14GwPath)
 		return
 	}
 	th, fl, where := "none", "none", c14GwPath
 	thS, flS := "unknown", "unknown"
+	capV, capS, capWhere := "none", "unknown", c14GwPath
 	if fn := g.Func("Gateway", "Lock"); fn != nil {
 		where = c14Where(g, fn)
 		found := 0
@@ -282,12 +285,48 @@ func c14Gateway(fs *Facts) {
 			}
 			return true
 		})
-		if found != 1 || writes != 1 {
+		// upper clamp: `if in.GetTTL() > C { in.TTL = C }`, C an integer literal or a package-level
+		// constant with an integer literal value
+		caps := 0
+		ast.Inspect(fn, func(n ast.Node) bool {
+			is, ok := n.(*ast.IfStmt)
+			if !ok {
+				return true
+			}
+			c := g.Str(is.Cond)
+			if !strings.HasPrefix(c, "in.GetTTL() > ") || len(is.Body.List) != 1 || is.Else != nil || is.Init != nil {
+				return true
+			}
+			b := g.Str(is.Body.List[0])
+			if !strings.HasPrefix(b, "in.TTL = ") {
+				return true
+			}
+			lhs, rhs := strings.TrimPrefix(c, "in.GetTTL() > "), strings.TrimPrefix(b, "in.TTL = ")
+			if lhs != rhs {
+				return true
+			}
+			if v, ok := c14IntConst(g, lhs); ok {
+				caps++
+				capV, capS = "(some (some "+c14Int(v)+"))", strconv.FormatInt(v, 10)
+				capWhere = c14Where(g, is)
+			}
+			return true
+		})
+		switch {
+		case found != 1 || writes != 1+caps || caps > 1:
 			th, fl, thS, flS = "none", "none", "unknown", "unknown"
+			capV, capS = "none", "unknown"
+		case caps == 0:
+			capV, capS, capWhere = "(some none)", "none", where
+		}
+		// the duration handed to the locker is exactly time.Duration(in.GetTTL())*time.Millisecond
+		if !g.Contains(fn, "time.Duration(in.GetTTL())*time.Millisecond") && !g.Contains(fn, "time.Duration(in.GetTTL()) * time.Millisecond") {
+			capV, capS = "none", "unknown"
 		}
 	}
 	fs.Raw("ttlThresh", th, thS, where)
 	fs.Raw("ttlFloor", fl, flS, where)
+	fs.Raw("ttlCap", capV, capS, capWhere)
 	// the locker is called with context.WithoutCancel(ctx): a waiting Lock RPC is not abandoned
 	woc := Unknown
 	if fn := g.Func("Gateway", "Lock"); fn != nil {
@@ -313,4 +352,37 @@ func c14Int(v int64) string {
 		return "(" + strconv.FormatInt(v, 10) + ")"
 	}
 	return strconv.FormatInt(v, 10)
+}
+
+// c14IntConst evaluates an integer literal, or a package-level constant declared with one.
+func c14IntConst(g *File, e string) (int64, bool) {
+	if v, err := strconv.ParseInt(e, 10, 64); err == nil {
+		return v, true
+	}
+	var val int64
+	found := 0
+	for _, d := range g.AST.Decls {
+		gd, ok := d.(*ast.GenDecl)
+		if !ok || gd.Tok != token.CONST {
+			continue
+		}
+		for _, sp := range gd.Specs {
+			vs, ok := sp.(*ast.ValueSpec)
+			if !ok {
+				continue
+			}
+			for i, n := range vs.Names {
+				if n.Name != e || i >= len(vs.Values) {
+					continue
+				}
+				if bl, ok := vs.Values[i].(*ast.BasicLit); ok && bl.Kind == token.INT {
+					if v, err := strconv.ParseInt(strings.ReplaceAll(bl.Value, "_", ""), 10, 64); err == nil {
+						val = v
+						found++
+					}
+				}
+			}
+		}
+	}
+	return val, found == 1
 }
